@@ -386,11 +386,13 @@ def _check_return(ctx, fi, cfg, dom, ret, R, env, facts, law_of, grid_col, label
         raise AnalysisError("%s: searched array %s is not a table column" % (fi.key, norm_text(X)))
     # the class index is the search result up to the constant -1/+1 shifts: clamping or conditional replacement moves loads
     # into another class (or an out-of-range load into range)
+    def is_search(c):
+        return (isinstance(c.func, ast.Attribute) and c.func.attr == "searchsorted") or (call_name(c) or "").endswith("searchsorted")
     idx_names = {st.targets[0].id for st in walk_function(fi.node) if isinstance(st, ast.Assign) and
-                 isinstance(st.targets[0], ast.Name) and any(norm_text(c) == ptext for c in calls_in(st.value))}
+                 isinstance(st.targets[0], ast.Name) and any(is_search(c) for c in calls_in(st.value))}
     for st in walk_function(fi.node):
         if isinstance(st, ast.Assign) and isinstance(st.targets[0], ast.Name) and st.targets[0].id in idx_names and \
-                not any(norm_text(c) == ptext for c in calls_in(st.value)):
+                not any(is_search(c) for c in calls_in(st.value)):
             clamp = [c for c in calls_in(st.value) if (call_name(c) or "") in ("np.maximum", "np.minimum", "np.clip", "np.where", "max",
                                                                                  "min", "np.abs", "abs") and
                      any(isinstance(a, ast.Name) and a.id in idx_names for a_ in c.args for a in ast.walk(a_))]
